@@ -380,7 +380,94 @@ func (env *Env) GenLemma(sf *SpecFile, lm *Lemma) (res *FuncResult, err error) {
 			panic(r)
 		}
 	}()
+	if lm.ByLean {
+		src, lerr := leanTheorem(lm)
+		if lerr != nil {
+			return nil, fmt.Errorf("lemma %s: %v", lm.Name, lerr)
+		}
+		ob := g.oblig("lemma", lm.Name, "true", token.NoPos, lm.Props, lm.Src)
+		ob.Lean = src
+		return &FuncResult{Key: g.key, Prelude: g.sc.Prelude(), Items: g.items, Obls: g.obls}, nil
+	}
 	t := cx.boolTerm(lm.Body)
 	g.oblig("lemma", lm.Name, t, token.NoPos, lm.Props, lm.Src)
 	return &FuncResult{Key: g.key, Prelude: g.sc.Prelude(), Items: g.items, Obls: g.obls}, nil
+}
+
+
+// leanTheorem renders an integer-arithmetic lemma as a Lean 4 theorem proved by omega.
+// Only forall over int variables, + - * / % by literals, comparisons, && || ==> ! and ite are accepted.
+func leanTheorem(lm *Lemma) (string, error) {
+	q, ok := lm.Body.(*EQuant)
+	if !ok || !q.Forall {
+		return "", fmt.Errorf("lean lemmas must be universally quantified")
+	}
+	var binds []string
+	for _, v := range q.Vars {
+		if v.Type != "int" && v.Type != "mathint" {
+			return "", fmt.Errorf("lean lemma variable %s must be int", v.Name)
+		}
+		binds = append(binds, fmt.Sprintf("(%s : Int)", v.Name))
+	}
+	body, err := leanExpr(q.Body)
+	if err != nil {
+		return "", err
+	}
+	return fmt.Sprintf("theorem %s %s : %s := by\n  omega\n", lm.Name, strings.Join(binds, " "), body), nil
+}
+
+func leanExpr(e Expr) (string, error) {
+	switch x := e.(type) {
+	case *EInt:
+		if x.Val.Sign() < 0 {
+			return "(" + x.Val.String() + ")", nil
+		}
+		return x.Val.String(), nil
+	case *EIdent:
+		return x.Name, nil
+	case *EBool:
+		if x.Val {
+			return "True", nil
+		}
+		return "False", nil
+	case *EUnary:
+		a, err := leanExpr(x.X)
+		if err != nil {
+			return "", err
+		}
+		if x.Op == "!" {
+			return "(¬ " + a + ")", nil
+		}
+		if x.Op == "-" {
+			return "(- " + a + ")", nil
+		}
+	case *EIte:
+		c, e1 := leanExpr(x.C)
+		a, e2 := leanExpr(x.A)
+		b, e3 := leanExpr(x.B)
+		if e1 != nil || e2 != nil || e3 != nil {
+			return "", fmt.Errorf("bad ite")
+		}
+		return fmt.Sprintf("(if %s then %s else %s)", c, a, b), nil
+	case *EBinary:
+		a, e1 := leanExpr(x.X)
+		b, e2 := leanExpr(x.Y)
+		if e1 != nil {
+			return "", e1
+		}
+		if e2 != nil {
+			return "", e2
+		}
+		op := map[string]string{"&&": "∧", "||": "∨", "==>": "→", "<==>": "↔", "==": "=", "!=": "≠", "<": "<", "<=": "≤", ">": ">", ">=": "≥", "+": "+", "-": "-", "*": "*", "/": "/", "%": "%"}[x.Op]
+		if op == "" {
+			return "", fmt.Errorf("operator %s not supported in lean lemmas", x.Op)
+		}
+		if x.Op == "/" || x.Op == "%" {
+			if lit, ok := x.Y.(*EInt); !ok || lit.Val.Sign() <= 0 {
+				return "", fmt.Errorf("lean lemmas: divisor must be a positive literal")
+			}
+		}
+		return "(" + a + " " + op + " " + b + ")", nil
+	}
+	return "", fmt.Errorf("expression %s not supported in lean lemmas", e)
 }
